@@ -23,10 +23,90 @@ RULES = {
     "R12.2": "try_send: poll_ready(Ready(Ok)) -> start_send -> poll_flush (ignored); Pending -> BufferFull, nothing encoded",
     "R12.3": "BufferFull and I/O-error arms continue with the next subscriber; only BrokenPipe marks dead; removal after the iteration",
     "R12.4": "set_send_high_water_mark called nowhere",
+    "R12.F": "foundation clauses re-evaluated as necessary conditions: " + ", ".join(['pubreader']),
 }
 
 
+def check_try_send(f, rep):
+    # ---- R12.2
+    ts = [b for b in f.bodies if b.j.get("name") == "try_send" and (b.j.get("impl_trait") or "").endswith("TrySend")]
+    rep.floor("R12.2", "TrySend::try_send impl", len(ts), 1)
+    for b in ts:
+        rep.check(not b.j.get("coroutine_kind") and not b.yields(), "R12.2", "R12.2|plain-fn", "try_send is a plain function: it cannot wait", b.loc())
+        seen = {"ready_ok": 0, "pending": 0, "ready_err": 0}
+        for p in pathq.paths(f, b):
+            if p.end != "return":
+                continue
+            pr = [(i, ev) for i, ev in enumerate(p.events) if ev.kind == "call" and short(ev.name) == "poll_ready"]
+            ss = [(i, ev) for i, ev in enumerate(p.events) if ev.kind == "call" and short(ev.name) == "start_send"]
+            pf = [(i, ev) for i, ev in enumerate(p.events) if ev.kind == "call" and short(ev.name) == "poll_flush"]
+            if not pr:
+                rep.bad("R12.2", "R12.2|%s|readiness-checked" % b.path, "try_send never asks the sink whether it can take an item (poll_ready missing): the high-water mark is not honoured", b.loc())
+                continue
+            r = pr[0][1].result
+            arm = None
+            for (e, c, _, _) in p.conds:
+                if e[0] == "discr" and e[1] == r and c[0] == "eq":
+                    arm = "ready" if c[1] == 0 else "pending"
+                if arm == "ready" and e[0] == "discr" and e[1][0] == "field" and e[1][1][0] == "downcast" and e[1][1][1] == r and c[0] == "eq":
+                    arm = "ready_ok" if c[1] == 0 else "ready_err"
+            cx = pr[0][1].args[1] if len(pr[0][1].args) > 1 else None
+            noop = cx is not None and pathq.mentions_call(cx, lambda y: short(y[1]) in ("noop_waker", "noop_waker_ref")) is not None
+            rep.check(noop, "R12.2", "R12.2|%s|noop-context" % b.path, "readiness is polled with a no-op waker context (nothing is registered to wake)", b.loc(pr[0][1].bb))
+            if arm == "ready_ok":
+                seen["ready_ok"] += 1
+                ok = len(ss) == 1 and ss[0][0] > pr[0][0] and len(pf) >= 1 and pf[0][0] > ss[0][0]
+                # flush result ignored: no decision on it leads to an Err return
+                flush_res = pf[0][1].result if pf else None
+                flush_decided = any(e[0] == "discr" and pathq.mentions_call(e, lambda y: y == flush_res) is not None for (e, c, _, _) in p.conds) if flush_res else False
+                rk = pathq.ret_kind(p)
+                ss_ok = pathq.ok_decided(p, lambda x: x[0] in ("call", "pure") and short(x[1]) == "start_send")
+                if rk == "Ok":
+                    rep.check(ok and not flush_decided and ss_ok, "R12.2", "R12.2|%s|ready-path" % b.path,
+                              "Ready(Ok): exactly one start_send after the readiness check, then a best-effort poll_flush whose outcome is ignored (start_send %d, flush %d, flush outcome inspected %s)" % (len(ss), len(pf), flush_decided), b.loc())
+            elif arm == "pending":
+                seen["pending"] += 1
+                full = p.ret is not None and "BufferFull" in show(p.ret)
+                rep.check(not ss and full and pathq.ret_kind(p) == "Err", "R12.2", "R12.2|%s|pending-path" % b.path,
+                          "Pending: nothing is encoded (start_send %d) and Err(BufferFull) is returned (%s)" % (len(ss), full), b.loc())
+            elif arm == "ready" or arm is None:
+                # the readiness result was never decided Ok (a Ready(Err) - the connection is broken at the high-water mark - passes for
+                # "ready"): nothing may be encoded on such a path
+                rep.check(not ss, "R12.2", "R12.2|%s|start-send-only-after-ready-ok" % b.path,
+                          "start_send happens only on paths that decided poll_ready == Ready(Ok(())) (this path decided: %s)" % arm, b.loc())
+            elif arm == "ready_err":
+                seen["ready_err"] += 1
+                rep.check(not ss and pathq.ret_kind(p) == "Err", "R12.2", "R12.2|%s|error-path" % b.path, "Ready(Err): nothing is encoded and the error is returned", b.loc())
+        rep.floor("R12.2", "try_send arms seen (ready, pending, error)", len([k for k, v in seen.items() if v]), 3)
+    # the error kinds try_send can produce are exactly the ones the publish loops go on after (R12.3): BufferFull, and the codec
+    # error converted with From (ZmqError::Codec(..)); any other ZmqError variant built here would fall into the loops' catch-all
+    # `Err(e) => return Err(e)` and end the publish for all remaining subscribers
+    for b in ts:
+        made = set()
+        for p in pathq.paths(f, b):
+            if p.end != "return" or pathq.ret_kind(p) != "Err":
+                continue
+            r = p.ret
+            inner = r[4][0] if r[0] == "agg" and r[4] else r
+            while inner[0] == "ref":
+                inner = inner[1]
+            if inner[0] == "agg" and inner[1] == "adt":
+                made.add(inner[3])
+            elif inner[0] in ("call", "pure") and short(inner[1]) in ("into", "from", "from_residual"):
+                made.add("converted")
+            else:
+                made.add("other:" + show(inner)[:40])
+        ok = made <= {"BufferFull", "Codec", "converted"}
+        rep.check(ok, "R12.2", "R12.2|%s|error-kinds" % b.path,
+                  "try_send fails only with BufferFull or the converted codec error - the kinds the publish loops continue after (built here: %s)" % sorted(made), b.loc())
+
+
+DEPENDS = ['pubreader']     # foundation groups re-evaluated as necessary conditions (rules/found.py)
+
+
 def run(ctx, f, rep):
+    from . import found
+    found.import_groups(ctx, f, rep, 'C12', DEPENDS)
     # ---- R12.1
     for suffix, label in (("r#pub::PubSocket", "PUB send"), ("xpub::XPubSocket", "XPUB send")):
         co = socket_coroutine(f, "SocketSend", "send", suffix)
@@ -129,56 +209,7 @@ def run(ctx, f, rep):
         rep.floor("R12.3", "%s: BufferFull arms on paths" % label, nfull, 1)
         rep.floor("R12.3", "%s: BrokenPipe arms on paths" % label, nbp, 1)
         rep.floor("R12.3", "%s: other-I/O-error arms on paths" % label, nio, 1)
-    # ---- R12.2
-    ts = [b for b in f.bodies if b.j.get("name") == "try_send" and (b.j.get("impl_trait") or "").endswith("TrySend")]
-    rep.floor("R12.2", "TrySend::try_send impl", len(ts), 1)
-    for b in ts:
-        rep.check(not b.j.get("coroutine_kind") and not b.yields(), "R12.2", "R12.2|plain-fn", "try_send is a plain function: it cannot wait", b.loc())
-        seen = {"ready_ok": 0, "pending": 0, "ready_err": 0}
-        for p in pathq.paths(f, b):
-            if p.end != "return":
-                continue
-            pr = [(i, ev) for i, ev in enumerate(p.events) if ev.kind == "call" and short(ev.name) == "poll_ready"]
-            ss = [(i, ev) for i, ev in enumerate(p.events) if ev.kind == "call" and short(ev.name) == "start_send"]
-            pf = [(i, ev) for i, ev in enumerate(p.events) if ev.kind == "call" and short(ev.name) == "poll_flush"]
-            if not pr:
-                rep.bad("R12.2", "R12.2|%s|readiness-checked" % b.path, "try_send never asks the sink whether it can take an item (poll_ready missing): the high-water mark is not honoured", b.loc())
-                continue
-            r = pr[0][1].result
-            arm = None
-            for (e, c, _, _) in p.conds:
-                if e[0] == "discr" and e[1] == r and c[0] == "eq":
-                    arm = "ready" if c[1] == 0 else "pending"
-                if arm == "ready" and e[0] == "discr" and e[1][0] == "field" and e[1][1][0] == "downcast" and e[1][1][1] == r and c[0] == "eq":
-                    arm = "ready_ok" if c[1] == 0 else "ready_err"
-            cx = pr[0][1].args[1] if len(pr[0][1].args) > 1 else None
-            noop = cx is not None and pathq.mentions_call(cx, lambda y: short(y[1]) in ("noop_waker", "noop_waker_ref")) is not None
-            rep.check(noop, "R12.2", "R12.2|%s|noop-context" % b.path, "readiness is polled with a no-op waker context (nothing is registered to wake)", b.loc(pr[0][1].bb))
-            if arm == "ready_ok":
-                seen["ready_ok"] += 1
-                ok = len(ss) == 1 and ss[0][0] > pr[0][0] and len(pf) >= 1 and pf[0][0] > ss[0][0]
-                # flush result ignored: no decision on it leads to an Err return
-                flush_res = pf[0][1].result if pf else None
-                flush_decided = any(e[0] == "discr" and pathq.mentions_call(e, lambda y: y == flush_res) is not None for (e, c, _, _) in p.conds) if flush_res else False
-                rk = pathq.ret_kind(p)
-                ss_ok = pathq.ok_decided(p, lambda x: x[0] in ("call", "pure") and short(x[1]) == "start_send")
-                if rk == "Ok":
-                    rep.check(ok and not flush_decided and ss_ok, "R12.2", "R12.2|%s|ready-path" % b.path,
-                              "Ready(Ok): exactly one start_send after the readiness check, then a best-effort poll_flush whose outcome is ignored (start_send %d, flush %d, flush outcome inspected %s)" % (len(ss), len(pf), flush_decided), b.loc())
-            elif arm == "pending":
-                seen["pending"] += 1
-                full = p.ret is not None and "BufferFull" in show(p.ret)
-                rep.check(not ss and full and pathq.ret_kind(p) == "Err", "R12.2", "R12.2|%s|pending-path" % b.path,
-                          "Pending: nothing is encoded (start_send %d) and Err(BufferFull) is returned (%s)" % (len(ss), full), b.loc())
-            elif arm == "ready" or arm is None:
-                # the readiness result was never decided Ok (a Ready(Err) - the connection is broken at the high-water mark - passes for
-                # "ready"): nothing may be encoded on such a path
-                rep.check(not ss, "R12.2", "R12.2|%s|start-send-only-after-ready-ok" % b.path,
-                          "start_send happens only on paths that decided poll_ready == Ready(Ok(())) (this path decided: %s)" % arm, b.loc())
-            elif arm == "ready_err":
-                seen["ready_err"] += 1
-                rep.check(not ss and pathq.ret_kind(p) == "Err", "R12.2", "R12.2|%s|error-path" % b.path, "Ready(Err): nothing is encoded and the error is returned", b.loc())
-        rep.floor("R12.2", "try_send arms seen (ready, pending, error)", len([k for k, v in seen.items() if v]), 3)
+    check_try_send(f, rep)
     # ---- R12.4
     hwm = [(b.path, b.loc(bb)) for b in f.bodies for bb, t, fn in b.calls() if fn and "high_water_mark" in fn["name"] and fn["name"].startswith("set_")]
     rep.check(not hwm, "R12.4", "R12.4|hwm-never-raised", "set_send_high_water_mark is called nowhere: the bound is the dependency's default (%s)" % hwm)
